@@ -124,6 +124,11 @@ package cafs
 //@   loop 1 invariant [verified] old(r.withVerifyHash) && r.idx != old(r.idx) ==> vh_set && vh == nil
 //@   loop 1 invariant [idx] 0 <= r.idx && r.idx < len(r.keys)
 //@   loop 1 invariant [config] r.withVerifyHash == old(r.withVerifyHash)
+// every byte the store's reader hands back is counted into the caller's buffer position, also when it comes
+// together with the end of the leaf (a reader may return n > 0 and io.EOF in one call)
+//@   call Read#1 bind got = $ret0
+//@   loop 1 step [bytes-returned-are-counted] got_set && r.readSoFar == prev(r.readSoFar) + got
+//@   call Read#1 assert [into-the-free-part-of-the-buffer] arr($1) == arr(data) && off($1) == off(data) + r.readSoFar
 //@   ensures [verified] old(r.withVerifyHash) && r.idx != old(r.idx) && (ret1 == nil || ret0 > 0) ==> vh_set && vh == nil
 
 //@ func calculateKeyAndOffset
